@@ -217,15 +217,42 @@ def strip_lean_comments(src):
     return "".join(out)
 
 
-def grep_forbidden():
+def module_closure(prop):
+    """files under lean/CelerVerif reachable through `import` from Props/<prop>.lean and from
+    the property's driver (the part of the library this property's claim rests on)"""
+    roots = [os.path.join(LEAN, "CelerVerif", "Props", prop + ".lean"),
+             os.path.join(LEAN, "Driver", prop + ".lean")]
+    seen, todo = set(), [r for r in roots if os.path.exists(r)]
+    while todo:
+        f = todo.pop()
+        if f in seen:
+            continue
+        seen.add(f)
+        try:
+            src = open(f).read()
+        except OSError:
+            continue
+        for m in re.findall(r"^import\s+((?:CelerVerif|Driver)\.\S+)", src, re.M):
+            q = os.path.join(LEAN, *m.split(".")) + ".lean"
+            if os.path.exists(q):
+                todo.append(q)
+    return sorted(seen)
+
+
+def grep_forbidden(prop=None):
+    """forbidden tokens outside comments, in the import closure of the property (or, with
+    prop=None, in the whole library)"""
+    if prop is None:
+        files = []
+        for root, _, fs in os.walk(os.path.join(LEAN, "CelerVerif")):
+            files += [os.path.join(root, fn) for fn in fs if fn.endswith(".lean")]
+    else:
+        files = module_closure(prop)
     hits = []
-    for root, _, files in os.walk(os.path.join(LEAN, "CelerVerif")):
-        for fn in files:
-            if fn.endswith(".lean"):
-                p = os.path.join(root, fn)
-                for k, line in enumerate(strip_lean_comments(open(p).read()).split("\n"), 1):
-                    if FORBIDDEN.search(line):
-                        hits.append(f"{os.path.relpath(p, LEAN)}:{k}: {line.strip()[:120]}")
+    for p in files:
+        for k, line in enumerate(strip_lean_comments(open(p).read()).split("\n"), 1):
+            if FORBIDDEN.search(line):
+                hits.append(f"{os.path.relpath(p, LEAN)}:{k}: {line.strip()[:120]}")
     return hits
 
 
@@ -245,13 +272,24 @@ def lean_build(targets, timeout=3600):
 
 
 def prop_theorems(prop):
-    """names of the theorems declared in Props/<prop>.lean (the proof obligations)"""
+    """fully qualified names of the theorems declared in Props/<prop>.lean (the proof
+    obligations); follows `namespace X` / `end X` nesting"""
     p = os.path.join(LEAN, "CelerVerif", "Props", prop + ".lean")
     src = strip_lean_comments(open(p).read())
-    ns = re.findall(r"^namespace\s+(\S+)", src, re.M)
-    names = re.findall(r"^\s*(?:protected\s+|private\s+)?theorem\s+(\S+)", src, re.M)
-    pre = (ns[0] + ".") if ns else ""
-    return [pre + n for n in names]
+    stack, names = [], []
+    for line in src.split("\n"):
+        m = re.match(r"^namespace\s+(\S+)", line)
+        if m:
+            stack.append(m.group(1))
+            continue
+        m = re.match(r"^end\s+(\S+)", line)
+        if m and stack and stack[-1] == m.group(1):
+            stack.pop()
+            continue
+        m = re.match(r"^\s*(?:@\[[^\]]*\]\s*)?(?:protected\s+|private\s+)?theorem\s+(\S+)", line)
+        if m:
+            names.append(".".join(stack + [m.group(1)]))
+    return names
 
 
 def lean_audit(prop):
@@ -347,6 +385,27 @@ class Ctx:
             f.write(body + "\n")
         return p
 
+    @staticmethod
+    def _sanitize(cov):
+        """keep the typed keys of EVIDENCE.schema.json well-typed whatever a check put there"""
+        if "exhaustive" in cov and not isinstance(cov["exhaustive"], bool):
+            cov["exhaustive_scope"] = cov.pop("exhaustive")
+        for k in ("evaluations", "distinct_nontrivial", "states", "transitions", "obligations",
+                  "discharged", "programs", "disagreements_checked",
+                  "traces_validated_against_impl"):
+            if k in cov and not isinstance(cov[k], int):
+                try:
+                    cov[k] = int(cov[k])
+                except (TypeError, ValueError):
+                    cov[k + "_note"] = str(cov.pop(k))
+        if "samples" in cov and not isinstance(cov["samples"], list):
+            cov["samples"] = [cov["samples"]]
+        if "trusted_base" in cov:
+            cov["trusted_base"] = [str(x) for x in cov["trusted_base"]]
+        for k in ("rule", "checker_cmd", "explanation"):
+            if k in cov and not isinstance(cov[k], str):
+                cov[k] = json.dumps(cov[k])
+
     def finish(self, level):
         wall = time.time() - self.t0
         ev = {"property_id": self.prop, "tier": self.tier, "seed": self.seed, "level": level,
@@ -354,6 +413,7 @@ class Ctx:
               "wall_s": round(wall, 2), "violations": len(self.violations)}
         if self.notes:
             ev["coverage"]["notes"] = self.notes
+        self._sanitize(ev["coverage"])
         os.makedirs(EVIDENCE, exist_ok=True)
         with open(os.path.join(EVIDENCE, self.prop + ".json"), "w") as f:
             json.dump(ev, f, indent=1, sort_keys=True)
